@@ -24,7 +24,8 @@ def omp_task_deps(st, task, cmap):
         kind = cl.get("depkind")
         for e in kids(cl):
             o = st.fm.origin(e)
-            m = re.match(r"^&?(.*)\.(get\w+Ptr)\(\)\[0\]\[0\]$", o)
+            # the first byte of the buffer, reached as ptr[0] or through a byte pointer to &ptr[0]
+            m = re.match(r"^&?(.*)\.(get\w+Ptr)\(\)(?:\[0\])?\[0\]$", o)
             if not m:
                 raise AnalysisBroken("%s: depend expression '%s' does not resolve to <group>.get<Buffer>Ptr()[0] (resolved: %s)" % (st.ex.facts.loc(e), st.ex.facts.ntext(e), o))
             deps.append({"group": m.group(1), "field": effects.ptr_accessor_field(cmap, m.group(2)), "kind": kind, "node": e})
@@ -78,12 +79,12 @@ def check_stage(st, weff, cmap, res, rule="C03.b"):
                 for f, mode in pe.items():
                     if f not in written:
                         continue
-                    key = (arg, f)
+                    key = (canon_group(arg), f)
                     if mode == "W" or need.get(key) != "W":
                         need[key] = mode if need.get(key) != "W" else "W"
         declared = {}
         for d in deps:
-            key = (d["group"], d["field"])
+            key = (canon_group(d["group"]), d["field"])
             w = d["kind"] in WRITE_KINDS
             declared[key] = "W" if (w or declared.get(key) == "W") else "R"
         where = facts.loc(t)
@@ -101,6 +102,42 @@ def check_stage(st, weff, cmap, res, rule="C03.b"):
                 res.violation(rule + ".deps-cover-effects", tbf.rel(facts.path_of(t)), fnq, "%s:%s" % (short(g), f), t["l"][1],
                               "task writes block %s of group %s but only declares a read dependency" % (f, short(g)))
     return n
+
+
+def _split_args(t):
+    out, d, cur = [], 0, ""
+    for ch in t:
+        if ch in "([{":
+            d += 1
+        elif ch in ")]}":
+            d -= 1
+        if ch == "," and d == 0:
+            out.append(cur)
+            cur = ""
+        else:
+            cur += ch
+    out.append(cur)
+    return out
+
+
+def canon_group(g):
+    """the first argument a group mapper hands to its callback is the working group: `targets[idxWorkingGroup]` with idxWorkingGroup =
+    distance(begin(targets), current iterator) - the very group the enclosing loop is at.  A dependency handle taken from that group
+    outside the callback names the same object as one taken from the callback's argument."""
+    m = re.match(r"^cb0\{TbfMapIndexesAndBlocks(?:Indexes)?\((.*)\)\}$", g)
+    if not m:
+        return g
+    a = _split_args(m.group(1))
+    if len(a) < 3:
+        return g
+    md = re.match(r"^std::distance\(it\((.*)\),it\((.*)\)\)$", a[2].strip())
+    if not md or md.group(1) != md.group(2):
+        return g
+    T = md.group(1)
+    targets = a[3].strip() if len(a) >= 4 and not a[3].strip().startswith("lambda") else a[1].strip()
+    if targets != T:
+        return g
+    return "each(%s)" % T
 
 
 def short(g):
